@@ -402,6 +402,25 @@ impl ListenerRegistry {
         selected.cloned()
     }
 
+    /// True when two or more distinct listeners claim `pt` in their payload-type
+    /// lists. Such a packet cannot be attributed to one media section by its
+    /// payload type and must not reach the provisional fallback either.
+    fn payload_type_is_ambiguous(&self, pt: u8) -> bool {
+        let mut first: Option<&mpsc::Sender<(RtpPacket, SocketAddr)>> = None;
+        for route in self
+            .routes
+            .iter()
+            .filter(|route| route.payload_types.contains(&pt))
+        {
+            match first {
+                Some(existing) if !existing.same_channel(&route.tx) => return true,
+                Some(_) => {}
+                None => first = Some(&route.tx),
+            }
+        }
+        false
+    }
+
     fn single_provisional(&self) -> Option<mpsc::Sender<(RtpPacket, SocketAddr)>> {
         let mut selected: Option<&mpsc::Sender<(RtpPacket, SocketAddr)>> = None;
 
@@ -1146,7 +1165,11 @@ impl PacketReceiver for RtpTransport {
                     bind_ssrc = selected.is_some();
                 }
 
-                if selected.is_none() {
+                // The provisional (promiscuous) fallback only takes packets whose
+                // payload type no other section claims: a payload type shared by
+                // several sections is ambiguous and the packet is dropped rather
+                // than handed to whichever listener happens to be provisional.
+                if selected.is_none() && !listeners.payload_type_is_ambiguous(pt) {
                     selected = listeners.single_provisional();
                     bind_ssrc = false;
                 }
